@@ -4,18 +4,19 @@ SPEC = {
     "engine": "E1", "level": "fault_enumeration",
     "technique": "crash-injecting database wrapper enumerating logical write indices; restart through the node's start-up sequence; differential comparison with a never-crashed node",
     "level_text": "For block insertions of every kind (plain, empty, identity-update, snapshot, validation-finished, contract, with version "
-                  "pruning past 100 retained states) and for fork switches (ResetTo + ApplyFork), the node's database is a wrapper that "
+                  "pruning past 100 retained states) for fork switches (ResetTo + ApplyFork) and for the final phase of a fast sync (snapshot import, forced identity version, AtomicSwitchToPreliminary), the node's database is a wrapper that "
                   "drops the k-th durable write and everything after it (batches atomic). For every k (thorough) or a stratified subset "
                   "incl. all phase boundaries (quick) the surviving database is restarted with the start-up sequence of node.StartWithHeight: "
                   "it must succeed, head roots must equal the loaded state, the head must be the interrupted height or a retained one below, "
                   "and the restarted node must accept the interrupted and the following blocks and end byte-identical to a never-crashed node.",
-    "level_note": "assumes prefix durability, atomic batches, no torn single writes; node.StartWithHeight is mirrored, not executed; the fast-sync switch (AtomicSwitchToPreliminary) is covered by the C11 harness' crash slice if present",
+    "level_note": "assumes prefix durability, atomic batches, no torn single writes; node.StartWithHeight is mirrored, not executed; fast sync is emulated by calling fast.go's functions in fast.go's order (verifsim/fastsync.go)",
     "rule": "case = one crash point (scenario, block, write index k) followed by restart + re-feed; distinct_nontrivial = distinct (scenario, phase, write index, block) tuples",
     "jobs": [Job("crash", "verifsim", "^TestVerifC09$", shards=(8, 16), timeout=(900, 3600))],
     "floors": {"crash_points": (800, 8000), "phase:batch:stateTree": 100, "phase:batch:identityTree": 100, "phase:set:head": 60,
                "phase:set:header-or-canonical": 100, "phase:set:txIndex": 30, "scenario:ForkSwitch(ResetTo+ApplyFork)": 100,
                "scenario:AddBlock(validation-finished)": 10, "scenario:AddBlock(identity-update)": 20, "scenario:AddBlock(snapshot)": 20,
-               "scenario:AddBlock(plain+pruning)": 20, "clean_restarts": 50},
+               "scenario:AddBlock(plain+pruning)": 20, "clean_restarts": 50,
+               "scenario:FastSyncFinish(RecoverSnapshot2+SaveForcedVersion+AtomicSwitchToPreliminary)": 10},
     "exhaustive": lambda tier: False,
     "parallel": 16,
     "assumptions": ["prefix durability (no reordering of acknowledged writes)", "atomic batches", "no torn single writes", "consensus config V12"],
